@@ -311,9 +311,10 @@ static int mmd1_load(struct module_data *m, HIO_HANDLE *f, const int start)
 			D_(D_INFO "annotxt_offset = 0x%08x", annotxt_offset);
 			m->comment = (char *) malloc(expdata.annolen + 1);
 			if (m->comment != NULL) {
+				size_t got;
 				hio_seek(f, start + annotxt_offset, SEEK_SET);
-				hio_read(m->comment, 1, expdata.annolen, f);
-				m->comment[expdata.annolen] = 0;
+				got = hio_read(m->comment, 1, expdata.annolen, f);
+				m->comment[got] = 0;	/* a short read leaves no uninitialised tail */
 			}
 		}
 	}
